@@ -386,3 +386,55 @@ func vRunCached(name string, fn flags.Function, args []string, recs []gts.Sequen
 	out, _ := os.ReadFile(dir + "/out.gb")
 	return out, cerr == nil
 }
+
+// vRunCachedP: vRunCached for invocations that may crash: a panic in the command unwinds (its deferred calls run)
+// and ends the process with status 2 before main() reaches closeCaches.  Status: 0 ok, 1 error, 2 crash.
+func vRunCachedP(name string, fn flags.Function, args []string, recs []gts.Sequence, stdin []byte, home string) ([]byte, int) {
+	ctx := &flags.Context{Name: []string{"gts", name}, Args: args}
+	run := func() int {
+		var err error
+		if vPanics(func() { err = fn(ctx) }) {
+			return 2
+		}
+		closeCaches(err == nil) // what main() does after the command returns
+		if err != nil {
+			return 1
+		}
+		return 0
+	}
+	if vIsModel() {
+		vResetStdio(stdin)
+		vQueue, vQPos, vOut, vScanFail = recs, 0, nil, false
+		vResetScanners()
+		st := run()
+		out, _ := vFSRead("/dev/stdout")
+		return out, st
+	}
+	dir := vTempDir()
+	fin, err := os.Create(dir + "/in.gb")
+	if err != nil {
+		panic(err)
+	}
+	w := seqio.NewWriter(fin, seqio.GenBankFile)
+	for _, s := range recs {
+		if _, err := w.WriteSeq(s); err != nil {
+			panic(err)
+		}
+	}
+	fin.Seek(0, io.SeekStart)
+	fout, err := os.Create(dir + "/out.gb")
+	if err != nil {
+		panic(err)
+	}
+	os.Setenv("XDG_CACHE_HOME", home)
+	st := func() int {
+		oldIn, oldOut := os.Stdin, os.Stdout
+		defer func() { os.Stdin, os.Stdout = oldIn, oldOut }()
+		os.Stdin, os.Stdout = fin, fout
+		return run()
+	}()
+	fin.Close()
+	fout.Close()
+	out, _ := os.ReadFile(dir + "/out.gb")
+	return out, st
+}
